@@ -134,8 +134,11 @@ func TestC12_Exhaustive(t *testing.T) {
 	rec.Bounds = fmt.Sprintf("all strings of length 0..%d over the %d-symbol alphabet %q x %d option sets x 4 tokenizers", maxLen, len(c12Alphabet), strings.Join(c12Alphabet, ""), len(optSets))
 	enumStrings(c12Alphabet, maxLen, true, func(parts []string) {
 		in := runesOf(parts)
-		for _, k := range tokKindsExt {
-			for _, o := range optSets {
+		for ki, k := range tokKindsExt {
+			for oi, o := range optSets {
+				if ki >= len(tokKinds) && !thorough() && oi%4 != 0 {
+					continue // quick tier: the user-configured kinds under every fourth option set
+				}
 				c12Run(rec, c12Case{k, o, in})
 			}
 		}
